@@ -134,12 +134,21 @@ SoftItems(W, S, call) ==
   LET cls == UNION {LET sfs == SoftsOf(FindBlock(W, W.objs[ob[1]].cls, ob[2]).body, << >>) IN
                     {[own |-> ob[1], blk |-> ob[2], idx |-> i, inl |-> FALSE, sf |-> sfs[i]] : i \in 1..Len(sfs)}
                     : ob \in EnabledBlocks(W, S, call)}
-      isf == SoftsOf(call.inline, << >>)
-      inl == {[own |-> call.owner, blk |-> "", idx |-> i, inl |-> TRUE, sf |-> isf[i]] : i \in 1..Len(isf)}
+      \* inline statements in order: a soft statement (possibly guarded), or a plain reference to a dynamic block,
+      \* whose own soft statements then take part at the position of the reference
+      RefObj(e) == AbsP(call.owner, e.o)
+      inlAt(i) == LET st == call.inline[i] IN
+                  IF st.k = "e" /\ st.e.k = "dyn"
+                  THEN LET sfs == SoftsOf(FindBlock(W, W.objs[RefObj(st.e)].cls, st.e.b).body, << >>) IN
+                       {[own |-> RefObj(st.e), blk |-> "", idx |-> i * 100 + j, inl |-> TRUE, sf |-> sfs[j]] : j \in 1..Len(sfs)}
+                  ELSE LET sfs == SoftsOf(<<st>>, << >>) IN
+                       {[own |-> call.owner, blk |-> "", idx |-> i * 100 + j, inl |-> TRUE, sf |-> sfs[j]] : j \in 1..Len(sfs)}
+      inl == UNION {inlAt(i) : i \in 1..Len(call.inline)}
   IN cls \cup inl
 \* documented priority: b is stated later in the same block than a, or b is inline and a class-level
 Higher(a, b) == \/ (~a.inl /\ b.inl)
-                \/ (a.inl = b.inl /\ a.own = b.own /\ a.blk = b.blk /\ a.idx < b.idx)
+                \/ (a.inl /\ b.inl /\ a.idx < b.idx)                                     \* one inline block per call
+                \/ (~a.inl /\ ~b.inl /\ a.own = b.own /\ a.blk = b.blk /\ a.idx < b.idx)
 \* ord lists the items in the order they are honoured (descending priority): a linear extension
 Respects(ord) == \A i, j \in 1..Len(ord) : i < j => ~Higher(ord[i], ord[j])
 PosIn(ord, x) == CHOOSE i \in 1..Len(ord) : ord[i] = x
